@@ -349,17 +349,22 @@ class Quantifier_init:
             and not hygiene_broken(variable, domain, condition)
 
     def ensures_value(quantifier, variable, domain, condition, data_type, result):
-        return isinstance(result, HplQuantifier) and result.data_type == BOOL and result.quantifier == quantifier \
+        d = BOOL if (data_type is None or data_type is NOTHING) else data_type
+        return isinstance(result, HplQuantifier) and result.data_type == d and result.quantifier == quantifier \
             and result.variable == variable and result.domain == with_dt(domain, domain.data_type & COMPOUND) \
             and result.condition == with_dt(condition, condition.data_type & BOOL)
 
     def ensures_wt(quantifier, variable, domain, condition, data_type, result):
-        return wt(result)
+        # an explicitly given type set wider than BOOL is stored as given (API-only corner, see the other constructors)
+        return (data_type is not None and data_type is not NOTHING and not within(data_type, BOOL)) or wt(result)
 
 
 def type_clash_q(variable, domain, condition, data_type):
+    # the uses of the bound variable are checked on the condition as stored, i.e. narrowed to BOOL at its root
+    # (matters only when the condition is the bound variable itself)
     return (domain.data_type & COMPOUND) == NONE or (condition.data_type & BOOL) == NONE \
-        or not uses_ok(condition, variable, elem_type(domain)) or given_dt_clash(data_type, BOOL)
+        or not uses_ok(with_dt(condition, condition.data_type & BOOL), variable, elem_type(domain)) \
+        or given_dt_clash(data_type, BOOL)
 
 
 def hygiene_broken(variable, domain, condition):
